@@ -12,13 +12,13 @@ NOTE = ("Trusted base: CrossHair's symbolic models of Python builtins (every cou
 CHECKS = {
     "C04": ("§5 C04", "All feasible paths of the real limiter code (trace_call -> ActionContext -> LocationAction) for k<=3 (4 thorough) hits at "
             "unbounded symbolic instants and unbounded symbolic fire_count/fire_period, plus an inductive step from an arbitrary limiter "
-            "state (covers histories of any length), textual/unparsable limits, defaults and the window; exact agreement with a reference "
+            "state (covers histories of any length), textual/unparsable limits, defaults, the window, and every action kind (snapshot, log, metric, span, capture) under the same limiter; exact agreement with a reference "
             "limiter (safety and liveness half). Concurrent hits: see known findings / DESIGN."),
 }
 CHECKS["C03"] = ("§5 C03", "All feasible paths of the real matching code (location_from_event, *Location.at_location, __actions_for_location, "
     "build_trigger, convert_response, add_custom) for 1-3 tracepoints and 1-2 events: a tracepoint acts iff the documented match holds, every "
     "matching tracepoint acts exactly once with every action kind, nothing else happens. Line numbers unbounded where the code only compares them; "
-    "paths as free symbolic strings <= 4 chars.")
+    "paths as free symbolic strings <= 4 chars; method tracepoints against plain and qualified code-object names.")
 CHECKS["C10"] = ("§5 C10", "All feasible paths of the real condition/expression code for 3 hits with symbolic per-hit truth, unbounded fire_count and "
     "9 condition flavours (failing ones raise exceptions with a free symbolic message); name visibility of 9 names (local, host global, builtin, agent-only) "
     "at the 4 evaluation sites (watch, log field, metric label, condition) against Python's own eval in the frame scope; failing-expression isolation.")
@@ -31,10 +31,10 @@ CHECKS["C13"] = ("§5 C13", "Every history of 3 (quick) / 4-5 (thorough) operati
     "after every operation the installed set equals a multiset model, and the same set acts when the lines are reached. Histories are enumerated by the solver (finite op alphabet).")
 CHECKS["C16"] = ("§5 C16", "Every template of 0..2 segments (3 thorough; 4 in slices) over a 12-kind segment alphabet (literals with %/:/!/non-ASCII, doubled braces, "
     "7 field expressions incl. failing ones) driven through the real handler on log-only and snapshot+log tracepoints, 1-3 hits: message text equals an independent "
-    "renderer, one logger call per permitted hit labelled (tracepoint id, context id) in their places, snapshot.log_msg and LOG-source watches agree.")
+    "renderer, one logger call per permitted hit labelled (tracepoint id, context id) in their places, snapshot.log_msg and LOG-source watches agree; the built-in PythonPlugin logger emits exactly that text through logging.")
 CHECKS["C17"] = ("§5 C17", "Metric tracepoints delivered as real protobuf definitions through convert_response and driven through the real handler: per permitted hit "
     "and per processor one call per definition via the operation named by its type, with name/namespace(default deep)/help/unit, labels (static/expression/failing), "
-    "value = expression as number or 1; no processor => nothing reported and no budget used. Selector spaces enumerated by the solver.")
+    "value = expression as number or 1; no processor => nothing reported and no budget used; values on which float() overflows or raises do not disturb the next definition. Selector spaces enumerated by the solver.")
 CHECKS["C18"] = ("§5 C18", "Inductive step of the real BoundedAttributes (one of 7 operations from any of 16 ordered states, symbolic drop counter, free symbolic string "
     "values against the value limit, 5 capacities, frozen/not) against a reference model - covers operation histories of any length over the modelled key set; value "
     "cleaning over 17 value shapes with symbolic elements; construction/eviction; Resource.merge chains (precedence, schema rule, operands unchanged); Resource.create + "
@@ -47,8 +47,8 @@ CHECKS["C05"] = ("§5 C05", "Snapshots of 9 graph templates collected by the rea
     "max_collection_size, max_var_depth unbounded; the solver partitions them against the graph; max_string_length 0..8): budget, string cut + truncated flag, per-collection "
     "cap, depth cap, truthful content, breadth-first spending of the budget (level order against an independent BFS of the real objects), locals never crowded out, everything "
     "within limits collected; two declaration orders (four thorough).")
-CHECKS["C06"] = ("§5 C06", "33 kinds of awkward values (no __dict__, non-str keys, iterators/generators, dunder methods raising any of 6 exception classes incl. "
-    "BaseException subclasses, invalid UTF-8 text) at 5 positions (local, list element, dict value, attribute, watch-only), 1-3 snapshot tracepoints on the line, through the "
+CHECKS["C06"] = ("§5 C06", "37 kinds of awkward values (no __dict__, non-str keys, iterators/generators, dunder methods raising any of 6 exception classes incl. "
+    "BaseException subclasses, invalid UTF-8 text) at 6 positions (local, local named self, list element, dict value, attribute, watch-only), 1-3 snapshot tracepoints on the line, through the "
     "real handler/collector and the real protobuf conversion: one converting snapshot per tracepoint, every other variable intact (independent reader), the value has an entry "
     "with its real type name, tables closed with no foreign entries. Selector space enumerated by the solver.")
 CHECKS["C02"] = ("§5 C02", "Snapshots produced by the real handler/collector for stacks of 1-3 frames (files inside/outside app root, include and exclude prefixes; "
@@ -63,9 +63,9 @@ CHECKS["C15"] = ("§5 C15", "Well-formed sys.settrace event streams generated fr
     "checks every opening is completed exactly once, after it, within its invocation, captures carry that invocation's result, nothing stays pending; two sequential "
     "threads with fresh or reused ident. Streams enumerated by the solver; three recorded findings are excluded by predicate.")
 CHECKS["C14"] = ("§5 C14", "Histories of 2-3 (thorough 3-4) start/shutdown calls on the real Deep / TriggerHandler / LongPoll with recording stand-ins for sys, threading, "
-    "the timer, the poll stub, grpc, plugins and the task handler: hooks installed once per start and restored exactly (untouched under NO_TRACE), one running timer while "
+    "the timer, the poll stub, grpc, plugins and the task handler: hooks (sys.settrace, threading.settrace, settrace_all_threads incl. the trace function of an already-running thread) installed once per start and restored exactly (untouched under 7 NO_TRACE spellings), one running timer while "
     "started and none after, delivery drained and every plugin shut down exactly once per shutdown under any failure subset, started flag truthful. Enumerated by the solver.")
-CHECKS["C20"] = ("§5 C20", "The real load_plugins over three custom plugin classes (importable / missing / constructor raises, activation by configuration text, "
+CHECKS["C20"] = ("§5 C20", "The real load_plugins over three custom plugin classes (importable / missing / constructor raises, activation by 8 configuration values incl. bools on which is_active() itself fails, "
     "UNBOUNDED symbolic order values incl. ties) against 'importable and constructible and active, stably sorted'; and fault isolation: two plugins of each of 5 types, one or both "
     "failing in each of 7 callbacks (resource, decorate, log, create_span, close, metric, shutdown) through the real Deep.start / handler / Deep.shutdown - the healthy "
     "plugin's calls, the delivered snapshot and its decorations, span closing and shutdown attempts are all preserved.")
@@ -73,7 +73,7 @@ CHECKS["C01"] = ("§5 C01", "Reduction of host transparency to the trace-functio
     "reachable objects) checked on the real handler: 10 tracepoint configurations x scripts of 3-4 events x hostile values (33 kinds, 6 exception classes incl. BaseException "
     "subclasses) in locals / return value / exception argument, and fault injection at a SYMBOLIC call index among the agent's calls into its sub-components and environment "
     "(the solver partitions the index over the calls actually made), both fault classes: nothing is raised, tracing stays on, locals untouched, iterators not advanced, and a "
-    "later benign run over the same tracepoints still produces every effect (no poisoned per-thread state).")
+    "later benign run over the same tracepoints still produces every effect (no poisoned per-thread state); no agent-level container of deep.* grows with the number of hits.")
 CHECKS["C08"] = ("§5 C08", "Field-by-field equality (walking the real protobuf descriptors, so a new or dropped field is noticed) between harness-assembled "
     "snapshots (0-2 frames, 0-3 table entries with children, good/error watches from 4 sources, 12 attribute value shapes, optional fields present/absent, boundary numeric "
     "values, one string field at a time replaced by empty / non-ASCII / control / long text) and the message produced by the real convert_snapshot, plus serialise/parse "
@@ -81,12 +81,12 @@ CHECKS["C08"] = ("§5 C08", "Field-by-field equality (walking the real protobuf 
 CHECKS["C09"] = ("§5 C09", "The real TaskHandler.submit_task (with its completion callback), flush, __check_open and PushService.push_snapshot, statement-stepped "
     "from the current source and run as threads (application thread + 2 pool workers on a simulated FIFO executor) under a context-bounded scheduler whose pre-emption point "
     "is a SYMBOLIC step index (the solver partitions it over the steps actually taken): every accepted task runs exactly once on a worker, failures are contained, flush "
-    "returns normally only after every earlier task finished, submissions after flush are refused visibly, nothing stays pending.")
+    "returns normally only after every earlier task finished, submissions after flush are refused visibly, nothing stays pending; two application threads (push + flush, flush + flush) with one or two pre-emptions.")
 CHECKS["C12"] = ("§5 C12", "LongPoll.poll, TracepointConfigService (update_new_config, __trigger_update, update_listeners, add_custom, remove_custom) and "
     "TaskHandler.submit_task statement-stepped from the current source and run as driver thread + 2 pool workers under a context-bounded scheduler with a SYMBOLIC "
     "pre-emption step: for histories of 2-3 (thorough 3-4) operations over UPDATE x3 / NO_CHANGE / failing / unintelligible poll, register, unregister, at quiescence the "
-    "installed set is the last UPDATE plus live registrations and the next poll reports the last UPDATE's hash. The out-of-order application of two in-flight updates is a "
-    "recorded finding, excluded by predicate.")
+    "installed set is the last UPDATE plus live registrations and the next poll reports the last UPDATE's hash. A second condition uses TWO pre-emptions (to a worker at a symbolic step, back to the driver 1-10 steps later) so that an operation "
+    "arrives while a worker is in the middle of an update.")
 PENDING = {}
 
 def main():
